@@ -36,10 +36,15 @@ GROUPS = {
              'diff', 'taylor', 'nsum_geom', 'limit'],
     'hyp': ['hyp0f1', 'hyp1f1', 'hyp2f1', 'hyp2f1_out', 'hyp1f2', 'hyp2f0', 'hyp3f2', 'hyper', 'legendre', 'chebyt', 'hermite',
             'laguerre', 'jacobi', 'besselj', 'bessely', 'besseli', 'besselk', 'erf', 'gammainc', 'expint', 'ellipk', 'ellipe', 'agm'],
+    'rules': ['invertlaplace_deg', 'invertlaplace_sin', 'invertlaplace', 'quad_method', 'quadosc', 'nsum_levin', 'nsum', 'sumem', 'chebyfit', 'fourier',
+              'polyroots', 'findroot_solver', 'pade', 'gauss_quadrature'],
     'bess': ['airyai', 'airybi', 'airyai_d', 'airyaizero', 'coulombf', 'coulombg', 'coulombc', 'besseljzero', 'besselyzero', 'struveh',
              'hankel1', 'ker', 'pcfd', 'whitm', 'hyperu', 'airybizero'],
 }
 EXCLUDE = frozenset(['primepi2', 'rand', 'randmatrix'])
+# callback-taking entries that may be probed / laddered (their callbacks are pure functions of the argument)
+CB_OK = frozenset(['quad', 'quadgl', 'quad_lor', 'quadts', 'nsum', 'diff', 'invertlaplace_deg', 'invertlaplace_sin', 'quad_method',
+                   'nsum_levin', 'chebyfit', 'findroot_solver', 'sumem'])
 # thresholds of the series caches in libelefun
 ELEM_PRECS = [380, 399, 400, 401, 420, 2480, 2499, 2500, 2501, 2520, 2980, 2999, 3000, 3001, 3020, 600, 1500]
 
@@ -412,7 +417,7 @@ class _Gen(object):
         for _ in range(n):
             actor = r.choice(self.actors)
             ents = self.entry_pool(actor) if r.random() < 0.75 else catalogue.entries(ctx='mp' if actor in ('mp', 'c1') else actor, maxcost=min(2, self.maxcost))
-            ents = [e for e in ents if (not e.cb or e.key in ('quad', 'quadgl', 'quad_lor', 'quadts', 'nsum', 'diff')) and e.key not in EXCLUDE]
+            ents = [e for e in ents if (not e.cb or e.key in CB_OK) and e.key not in EXCLUDE]
             if not ents:
                 continue
             e = r.choice(ents)
@@ -477,7 +482,7 @@ class _Gen(object):
         r = self.rng
         actor = 'mp'
         ok = lambda e: ('mp' in e.ctxs and e.cost <= 2 and e.key not in EXCLUDE and not e.key.endswith('_vhi')
-                        and (not e.cb or e.key in ('quad', 'quadgl', 'quad_lor', 'quadts', 'nsum', 'diff')))
+                        and (not e.cb or e.key in CB_OK))
         c = r.random()
         if c < 0.2:
             ents = [e for e in catalogue.entries(ctx='mp', maxcost=2) if ok(e)]
